@@ -583,8 +583,9 @@ class ControllerRun:
                     leftovers.append("shared-memory-registry")
                 out_apps.append({"none": True} if not leftovers else {"leftovers": leftovers})
                 continue
-            if a not in ex._registers or a not in ex._shared_memories or a not in ex._app_arrays or a not in ex._qubit_unit_modules:
-                out_apps.append({"broken": True})
+            if a not in ex._registers or a not in ex._shared_memories or a not in ex._app_arrays or a not in ex._qubit_unit_modules \
+                    or ex._shared_memories[a] is None or ex._registers[a] is None or ex._app_arrays[a] is None:
+                out_apps.append({"broken": True})      # a registered application without (part of) its memory
                 continue
             regs = regfile(ex._registers[a])
             sh = ex._shared_memories[a]
